@@ -236,7 +236,7 @@ func Run(c *engine.Ctx) {
 				// two-component client principal whose keytab also holds a newer sibling/<instance> entry
 				variants := []string{""}
 				if et == 18 || et == 23 {
-					variants = []string{"", "udp-too-big", "user-instance", "canonicalize", "forwardable-proxiable", "advertised-salt", "canonicalize+advertised-salt"}
+					variants = []string{"", "udp-too-big", "user-instance", "canonicalize", "forwardable-proxiable", "advertised-salt", "canonicalize+advertised-salt", "requested-addresses"}
 				}
 				for _, variant := range variants {
 					if strings.Contains(variant, "advertised-salt") && cred != "password" {
@@ -245,6 +245,11 @@ func Run(c *engine.Ctx) {
 					perts := perturbations(et, bits)
 					if variant != "" {
 						perts = perturbations(et, []int{0, -1})
+					}
+					if variant == "requested-addresses" {
+						// noaddresses = false: the requests carry addresses and the genuine replies repeat them; a reply
+						// naming an address that was not requested is outside the bounds wherever it stands in the list
+						perts = addressPerturbations()
 					}
 					if variant == "user-instance" && cred == "keytab" && exch != "TGS" {
 						perts = append(perts, pert{"enc-part-under-sibling-principal-key", func(r *simkdc.Reply, et int32, w *cworld.World) {
@@ -271,6 +276,9 @@ func Run(c *engine.Ctx) {
 						if strings.Contains(variant, "advertised-salt") {
 							salt := "an explicit salt, advertised in every reply"
 							o.Salt = &salt
+						}
+						if variant == "requested-addresses" {
+							o.ExtraAddresses = []string{"10.1.2.3", "10.1.2.4"}
 						}
 						if exch == "AS+PA" {
 							o.PreAuth = "required"
@@ -357,10 +365,48 @@ func Run(c *engine.Ctx) {
 	c.Add("states", evals)
 	c.Add("transitions", evals)
 	c.Add("traces_validated_against_impl", evals)
-	c.Cov["rule"] = "etype(6) x credential {keytab,password} x exchange {AS, AS after PREAUTH_REQUIRED, TGS} x world variant {plain; for etypes 18/23 also: UDP answers RESPONSE_TOO_BIG, two-component principal with sibling keytab entry, canonicalize, forwardable+proxiable, explicit advertised salt (password)} x perturbation (field perturbations, enc-part plaintext cut at every offset (etype 18/keytab) or 10 sample offsets, foreign enc-part application tags + ciphertext bit flips: all bits of the first and last 16 bytes for etype 18/keytab, 6 sample bits elsewhere); stale replies; KRB-ERROR codes 0..100 and 3 unassigned for AS and TGS; ASRep.Verify with requested addresses. distinct = (etype, credential, exchange, perturbation class, accepted?) cells whose outcome matched"
+	c.Cov["rule"] = "etype(6) x credential {keytab,password} x exchange {AS, AS after PREAUTH_REQUIRED, TGS} x world variant {plain; for etypes 18/23 also: UDP answers RESPONSE_TOO_BIG, two-component principal with sibling keytab entry, canonicalize, forwardable+proxiable, explicit advertised salt (password), requests carrying addresses (noaddresses = false, two extra_addresses) with reply address lists {reordered, foreign only / first / middle / last / replacing, first entry under another type}} x perturbation (field perturbations, enc-part plaintext cut at every offset (etype 18/keytab) or 10 sample offsets, foreign enc-part application tags + ciphertext bit flips: all bits of the first and last 16 bytes for etype 18/keytab, 6 sample bits elsewhere); stale replies; KRB-ERROR codes 0..100 and 3 unassigned for AS and TGS; ASRep.Verify with requested addresses. distinct = (etype, credential, exchange, perturbation class, accepted?) cells whose outcome matched"
 }
 
 var digits = regexp.MustCompile(`-?\d+$`)
+
+// addressPerturbations: reply address lists for requests that carried addresses (at least the two configured extras).
+func addressPerturbations() []pert {
+	foreign := krbmsg.HostAddress{Type: 2, Addr: []byte{192, 168, 77, 9}}
+	cp := func(l []krbmsg.HostAddress) []krbmsg.HostAddress { return append([]krbmsg.HostAddress{}, l...) }
+	return []pert{
+		{"none", func(r *simkdc.Reply, et int32, w *cworld.World) {}, "accept", "accept"},
+		{"caddr-reordered", func(r *simkdc.Reply, et int32, w *cworld.World) {
+			l := cp(r.Enc.CAddr)
+			for i, j := 0, len(l)-1; i < j; i, j = i+1, j-1 {
+				l[i], l[j] = l[j], l[i]
+			}
+			r.Enc.CAddr = l
+		}, "accept", "accept"},
+		{"caddr-foreign-only", func(r *simkdc.Reply, et int32, w *cworld.World) { r.Enc.CAddr = []krbmsg.HostAddress{foreign} }, "reject", "reject"},
+		{"caddr-foreign-first", func(r *simkdc.Reply, et int32, w *cworld.World) {
+			r.Enc.CAddr = append([]krbmsg.HostAddress{foreign}, r.Enc.CAddr...)
+		}, "reject", "reject"},
+		{"caddr-foreign-last", func(r *simkdc.Reply, et int32, w *cworld.World) { r.Enc.CAddr = append(cp(r.Enc.CAddr), foreign) }, "reject", "reject"},
+		{"caddr-foreign-middle", func(r *simkdc.Reply, et int32, w *cworld.World) {
+			l := cp(r.Enc.CAddr)
+			if len(l) < 2 {
+				engine.FailValid("requested-addresses world", fmt.Errorf("reply carries %d addresses, want at least 2", len(l)))
+			}
+			r.Enc.CAddr = append(append(cp(l[:1]), foreign), l[1:]...)
+		}, "reject", "reject"},
+		{"caddr-foreign-replaces-first", func(r *simkdc.Reply, et int32, w *cworld.World) {
+			l := cp(r.Enc.CAddr)
+			l[0] = foreign
+			r.Enc.CAddr = l
+		}, "reject", "reject"},
+		{"caddr-first-under-other-type", func(r *simkdc.Reply, et int32, w *cworld.World) {
+			l := cp(r.Enc.CAddr)
+			l[0] = krbmsg.HostAddress{Type: 20, Addr: l[0].Addr}
+			r.Enc.CAddr = l
+		}, "reject", "reject"},
+	}
+}
 
 func classOf(name string) string {
 	if strings.HasPrefix(name, "cipher-bit-") {
